@@ -4,7 +4,7 @@
    states the fuel that suffices).  A fmt string is the list [ws] of its widths. *)
 From Coq Require Import ZArith List Bool.
 Import ListNotations.
-Require Import V.Lib.C40_PyRt V.gen.Byting V.C40.Model V.C40.Proofs.
+Require Import V.Lib.C40_PyRt V.gen.Byting V.C40.Model V.C40.Proofs V.C40.ProofsByte.
 Open Scope Z_scope.
 
 (* ROUND TRIP, all formats / values / sizes / byte orders: packing succeeds, yields exactly [size]
@@ -142,11 +142,34 @@ Theorem unhexify_any_text : forall h,
 Proof. exact unhex_general_l. Qed.
 Print Assumptions unhexify_any_text.
 
+(* packByte / unpackByte (format = bytes of ASCII digits 1..8, total <= 8, e.g. b"1322"): packing gives
+   the byte whose bit fields are the normalised values; unpacking it returns them (booleans for
+   one-bit fields when requested); unpackByte of ANY int reads the fields of its low byte *)
+Theorem unpackByte_packByte : forall ws vs boolean, wf_byte_fmt ws -> length vs = length ws ->
+  exists B, packByte (byte_fmt ws) vs = Ok B /\ 0 <= B < 256 /\
+            unpackByte (byte_fmt ws) B boolean = Ok (fields_spec boolean ws vs).
+Proof. exact unpackByte_packByte_l. Qed.
+Print Assumptions unpackByte_packByte.
+
+Theorem packByte_value : forall ws vs, wf_byte_fmt ws -> length vs = length ws ->
+  packByte (byte_fmt ws) vs = Ok (packZ ws vs 8).
+Proof. exact packByte_ok. Qed.
+Print Assumptions packByte_value.
+
+Theorem unpackByte_fields : forall ws byte boolean, wf_byte_fmt ws ->
+  unpackByte (byte_fmt ws) byte boolean = Ok (slices boolean (byte mod 256) ws 8).
+Proof. exact unpackByte_ok. Qed.
+Print Assumptions unpackByte_fields.
+
 (* sign extension is two's complement: an n-bit pattern x reads as x below 2^(n-1), else x - 2^n *)
 Theorem signExtend_twos : forall x n, 1 <= n -> 0 <= x < 2 ^ n ->
   signExtend x n = Ok (if x <? 2 ^ (n - 1) then x else x - 2 ^ n).
 Proof. exact signExtend_twos_l. Qed.
 Print Assumptions signExtend_twos.
+
+Example c40_packByte_doc : packByte [49;51;50;50] [1;4;0;3] = Ok 195 /\
+  unpackByte [49;51;50;50] 195 true = Ok [VB true; VI 4; VI 0; VI 3].
+Proof. vm_compute. split; reflexivity. Qed.
 
 (* non-vacuity: the docstring example, and a reversed, padded, boolean one *)
 Example c40_doc_example :
